@@ -29,7 +29,7 @@ import t2incons
 
 CASE_TIMEOUT = 5          # seconds per generated case (each takes milliseconds)
 SHIPPED_TIMEOUT = 45      # seconds per shipped file (the largest takes about 6)
-PER_CATEGORY_CAP = 6
+PER_CLASS_CAP = 3         # failures listed per (category, population); all are counted
 
 
 # ------------------------------------------------------------------ oracle helpers
@@ -736,15 +736,18 @@ def main():
             distinct |= d
             if s is not None and len(samples) < 4:
                 samples.append(s)
+        def klass(f):
+            key = f['key']
+            pop = next((p for p in ('toughreact-noperm', 'neg3exp', 'shipped') if '[' + p + ' ' in key), 'main')
+            return key.split(' ')[0] + '/' + pop
         shown, percat = [], Counter()
         for f in fails:
-            cat = f['key'].split(' ')[0]
-            if percat[cat] < PER_CATEGORY_CAP and len(shown) < 60:
+            if percat[klass(f)] < PER_CLASS_CAP and len(shown) < 60:
                 shown.append(f)
-            percat[cat] += 1
+            percat[klass(f)] += 1
         out = {'evaluations': sum(ev.values()), 'distinct': len(distinct), 'failures': shown, 'nfailures': len(fails),
                'samples': samples, 'seconds': time.time() - t0, 'evaluations_by_contract': dict(ev),
-               'failures_by_category': dict(Counter(f['key'].split(' ')[0] for f in fails))}
+               'failures_by_category_and_population': dict(percat)}
     finally:
         shutil.rmtree(tmpdir, ignore_errors=True)
     print('@@JSON@@' + json.dumps(out))
